@@ -217,7 +217,8 @@ func runFull(out *c.Out, r *c.Rng, nSeq int) {
 		ps := genKd(false)
 		infra := genKd(true)
 		kdActive := r.Chance(90)
-		kk.SetParams(ctx, kavadisttypes.NewParams(kdActive, toKdRates(ps), kavadisttypes.NewInfraParams(toKdRates(infra), nil, nil)))
+		kdp := kavadisttypes.NewParams(kdActive, toKdRates(ps), kavadisttypes.NewInfraParams(toKdRates(infra), nil, nil))
+		kapp.SetParams(w.tApp, ctx, "kavadist", &kdp, func() { kk.SetParams(ctx, kdp) })
 		if r.Chance(75) {
 			kk.SetPreviousBlockTime(ctx, tm(t0-r.Range(0, 10)*NS))
 		}
@@ -262,7 +263,7 @@ func runFull(out *c.Out, r *c.Rng, nSeq int) {
 				kp := kk.GetParams(ctx)
 				if !p.UpgradeTimeDisableInflation.IsZero() || upgrade == nil {
 					kp.Active = !kp.Active
-					kk.SetParams(ctx, kp)
+					kapp.SetParams(w.tApp, ctx, "kavadist", &kp, func() { kk.SetParams(ctx, kp) })
 				}
 			}
 			bctx := ctx.WithBlockTime(tm(now)).WithBlockHeight(1)
